@@ -1,5 +1,5 @@
 """SqlPrune.tla — C36 (sql-processor server: single-topic SELECT = direct filtering; segment pruning sound)."""
-import copy, json, os, re
+import copy, json, os, random, re
 from lib import tlc as T, layers, gorun
 from lib.common import Broken, Violation, verdict, save_replay
 
@@ -50,15 +50,20 @@ def check(ctx, prop):
         st = json.load(open(path))["counterexample"]["state"][-1][1]
         inputs.append({"segs": st["segs"], "q": st["qry"], "label": "dev:" + dev})
     ndev = len(inputs)
-    r = T.tlc(ctx, d, "MC_SqlPrune.tla", "Sim_SqlPrune.cfg", workers=1, simulate="num=%d" % (2500 if quick else 20000), depth=3, seed=ctx.seed, deadlock_off=True, timeout=1500)
+    # TLC -simulate evaluates the invariants (and so prints the input) for every successor of every visited state:
+    # one simulated behaviour = one seeded-random layout with ALL 1215 queries; a seeded sample of those pairs is replayed
+    nlay, nsample = (10, 2500) if quick else (80, 20000)
+    r = T.tlc(ctx, d, "MC_SqlPrune.tla", "Sim_SqlPrune.cfg", workers=1, simulate="num=%d" % nlay, depth=3, seed=ctx.seed, deadlock_off=True, timeout=1500)
     if r.violated:
         raise Broken("simulation reported a violation:\n" + r.out[-2000:])
-    seen = set()
+    seen, pool = set(), []
     for h in r.prints.get("SCHED", []):
         k = json.dumps(h, sort_keys=True)
         if k not in seen:
             seen.add(k)
-            inputs.append({"segs": h["segs"], "q": h["q"], "label": "sim"})
+            pool.append({"segs": h["segs"], "q": h["q"], "label": "sim"})
+    random.Random(ctx.seed).shuffle(pool)
+    inputs += pool[:nsample]
     if len(inputs) < ndev + 100:
         raise Broken("simulation produced only %d inputs" % (len(inputs) - ndev))
     ctx.log("%d inputs (%d deviation counterexamples, %d sampled by TLC)" % (len(inputs), ndev, len(inputs) - ndev))
@@ -91,7 +96,7 @@ def check(ctx, prop):
         "traces_validated_against_impl": len(rows), "trace_events": len(rows),
         "evaluations": len(rows), "distinct_nontrivial": nontrivial, "evaluations_with_a_segment_skipped": pruned,
         "query_classes": len({qclass(e["q"]) for e in rows}),
-        "rule": "inputs = TLC counterexamples of the named wrong pruning rules + distinct (layout, query) pairs visited by TLC -simulate (seeded) over the thorough domain (225 layouts x 1215 queries); non-trivial = has an offset or time filter and returns at least one row; 'segment skipped' = fewer segments decoded than the partition filter alone would leave",
+        "rule": "inputs = TLC counterexamples of the named wrong pruning rules + a seeded sample of the (layout, query) pairs printed by TLC -simulate (seeded random layouts of the thorough domain of 225 layouts, each with all 1215 queries); non-trivial = has an offset or time filter and returns at least one row; 'segment skipped' = fewer segments decoded than the partition filter alone would leave",
         "deviation_schedules": sorted(DEVIATIONS), "conformance": ("drift" if drift else "accepted"), "conformance_detail": conf,
         "binding_self_test": st, "samples": [{"q": rows[0]["q"], "sql": rows[0]["sql"], "rows": rows[0]["rows"], "scanned": rows[0]["scanned"]}, {"q": rows[ndev]["q"], "sql": rows[ndev]["sql"], "rows": rows[ndev]["rows"], "scanned": rows[ndev]["scanned"], "segs": rows[ndev]["segs"]}],
     }
